@@ -114,6 +114,15 @@ CLAIMED['C05'] = dict(
          'steps is beyond z3 within the budget and not claimed; target pipe without CV/pump/tank-limit closure.',
     ref='DESIGN.md section 4, C05')
 
+CLAIMED['C09'] = dict(
+    engine='symx+ctrlplane',
+    technique='symbolic execution of the real run_sim loop (Newton solve stubbed) with symbolic initial link-status bits and symbolic control instants; z3 decides the feasible orderings and certifies that the path tree is exhausted; on every path the real incremental graph bookkeeping and the C++ search rebuilt from source are executed and compared with an independent reachability oracle',
+    text='On two graphs (parallel links of opposite orientation and of different type, bridge, dead ends, reservoir + tank) for ALL 2^k initial closed/open patterns of the listed links and all orderings of up to two '
+         'opening/closing time controls with symbolic instants: at every solve junction._is_isolated <=> not reachable from a source over non-closed links, link flags follow, isolated junctions have no balance row, '
+         'and the recorded results are zero exactly for cut-off junctions and their links and non-zero for connected ones, including after reconnection.',
+    note='Trusted: z3 for path feasibility; the graph search itself is executed per path, not encoded (no C++ symbolic executor available) - this is bounded exhaustive path enumeration driven by the solver; stubbed solve returns non-zero demand/head for connected junctions.',
+    ref='DESIGN.md section 4, C09')
+
 NOT_APPLICABLE = {
     'C03': 'compares the numerical output of the closed EPANET shared library with a compiled Newton/SuperLU iteration; neither can be executed '
            'symbolically with the tools on this image and a contract standing in for EPANET would be the property itself (DESIGN.md section 5)',
